@@ -1,8 +1,9 @@
 /-
-Soundness of every proposal of `appendEdges` except the hvcurveto/vhcurveto forms (C04).
+Soundness of every proposal of `appendEdges`: all twelve operator forms (C04).
 -/
 import SfntV.Proofs.T2EdgesHH
 import SfntV.Proofs.T2EdgesVV
+import SfntV.Proofs.T2EdgesHV
 
 set_option linter.unusedSimpArgs false
 set_option linter.unusedVariables false
@@ -10,12 +11,10 @@ set_option linter.unusedVariables false
 namespace SfntV.T2Enc
 open SfntV SfntV.T2 SfntV.Spec.T2
 
-/-- the operators whose edges are proved sound: all but hvcurveto and vhcurveto -/
-def coreOp2 (o : Op) : Bool := !(o == .hvcurveto || o == .vhcurveto)
-
-theorem appendEdges_sound_core2 (frm : Nat) (cmds : List Seg) :
-    ∀ e ∈ appendEdges frm cmds, coreOp2 e.op = true → EdgeSound frm cmds e := by
-  intro e he hcore
+/-- every edge proposed by `appendEdges` (all twelve operator forms) is sound -/
+theorem appendEdges_sound (frm : Nat) (cmds : List Seg) :
+    ∀ e ∈ appendEdges frm cmds, EdgeSound frm cmds e := by
+  intro e he
   cases cmds with
   | nil => simp [appendEdges] at he
   | cons g t =>
@@ -99,10 +98,8 @@ theorem appendEdges_sound_core2 (frm : Nat) (cmds : List Seg) :
                   · simp at he
               · exact vvEdges_sound frm _ e he
             · exact hhEdges_sound frm _ e he
-          · have := hvvhEdges_op _ _ _ _ _ _ _ e he
-            rw [this] at hcore; simp [coreOp2] at hcore
-        · have := hvvhEdges_op _ _ _ _ _ _ _ e he
-          rw [this] at hcore; simp [coreOp2] at hcore
+          · exact hvEdges_sound frm _ e he
+        · exact vhEdges_sound frm _ e he
       · -- flex
         cases t with
         | nil => simp [flexEdges] at he
